@@ -124,10 +124,25 @@ func TestDriver(t *testing.T) {
 		// the second half of the random histories contains computed-but-never-committed blocks
 		runModule(res, tr, fmt.Sprintf("rnd-%d", i), randomHistory(r, mode, i >= nr/2))
 	}
+	// the same kind of histories through single Put / Delete calls on mpt.Trie (no dropped blocks there)
+	nt := vh.EnvInt("VERIF_TRIE", nr/3)
+	for i := 0; i < nt; i++ {
+		h := randomHistory(r, modes[i%2], false)
+		h.API = "trie"
+		for j := range h.Steps { // single operations: the order inside a block matters, shuffle it
+			ch := h.Steps[j].Ch
+			r.Shuffle(len(ch), func(a, b int) { ch[a], ch[b] = ch[b], ch[a] })
+		}
+		runModule(res, tr, fmt.Sprintf("trie-%d", i), h)
+	}
+	res.Inc("trie_histories", nt)
 	res.Inc("random_histories", nr)
 	nc := vh.EnvInt("VERIF_CHAINS", 0)
 	for i := 0; i < nc; i++ {
-		runChain(t, res, tr, i)
+		// a subtest per chain: neotest helpers stop the (sub)test on unexpected errors
+		if !t.Run(fmt.Sprintf("chain-%d", i), func(st *testing.T) { runChain(st, res, tr, i) }) {
+			res.Inc("chains_failed", 1)
+		}
 	}
 	res.Inc("chain_histories", nc)
 	tr.Close()
